@@ -1,13 +1,41 @@
 import Rooc.Wire
 import Rooc.Oracle
+import Rooc.WireStd
+import Rooc.StdOracle
+import Rooc.Gen.Consts
 namespace Rooc.Drv.C13
 open Rooc Sexp
 
+/-- the tolerance sent by the harness must be the one the regenerated constant table implies
+(`10^-NEAR_ZERO_PRECISION`); a disagreement means the extractor and the measured code differ. -/
+def tolOk : Sexp → Bool
+  | .atom s =>
+    match (decNum s : Option (Ext Rat)) with
+    | some (.fin q) =>
+      let want : Rat := 1 / ((10 : Rat) ^ Gen.nearZeroPrecision)
+      let d := if q < want then want - q else q - want
+      d * 1000000000000 ≤ want          -- within 1e-12 relative: the nearest double
+    | _ => false
+  | _ => false
+
 /-- model requests for C13 (run at `Float` for the exact diff, at `Ext Rat` as oracle). -/
 def handle (α : Type) [Arith α] [Wire α] : List Sexp → Sexp
+  | [.atom "standardize", tol, lm] =>
+    if !(tolOk tol) then app "err" [.atom "tolerance-mismatch"] else
+    match (decNumS tol : Option α), (LinModel.dec lm : Option (LinModel α)) with
+    | some tol, some lm =>
+      match Standardize.standardize tol lm with
+      | .ok sm => app "ok" [sm.enc]
+      | .error e => app "err" [.atom e.name]
+    | _, _ => app "err" [.atom "decode"]
   | _ => app "err" [.atom "bad-request"]
 
 /-- exact oracle: the PROPERTY evaluated on the implementation's own answer. -/
 def oracle : List Sexp → Sexp
+  | [.atom "check-std", tol, effort, lm, sm] =>
+    match (decNumS tol : Option (Ext Rat)), decNat effort, (LinModel.dec lm : Option (LinModel (Ext Rat))),
+          (StdModel.dec sm : Option (StdModel (Ext Rat))) with
+    | some (.fin tol), some effort, some lm, some sm => StdOracle.check tol effort lm sm
+    | _, _, _, _ => app "err" [.atom "decode"]
   | _ => app "err" [.atom "bad-request"]
 end Rooc.Drv.C13
